@@ -382,8 +382,69 @@ def gen_case(rng, tier):
     return {'isa': isa, 'asm': asm, 'base': base, 'stmts': [f for f, _ in stmts], 'nvar': nvar}
 
 
+def gen_case_shadow(rng, tier):
+    """variant order against operand text that an EARLIER numeric-style variant must refuse because it names a register
+    (in any letter case, bare or under a unary operator), so that a LATER register variant gets it: `tst -a` with
+    variants [numeric] , [pre-decrement register a] , [register a]"""
+    regs = rng.sample(REGS, rng.randint(2, 4))
+    de = rng.choice(['big', 'little'])
+    gz = (0, 65535)
+    consts = {'kfoo': rng.randint(0, 250)}
+    al = Alloc()
+    isa = {'description': 'c13s', 'general': {'address_size': 16, 'endian': de, 'registers': regs}, 'operand_sets': {},
+           'instructions': {}}
+    r = rng.choice(regs)
+    plan = [rng.choice(['numeric', 'numeric', 'address', 'relative_address', 'numeric_bytecode'])]
+    later = rng.sample(['deco-', 'deco--', 'register', 'deco-post'], rng.randint(1, 3))
+    plan += later
+    variants_y, variants_m = [], []
+    for vi, k in enumerate(plan):
+        oid = f'o{vi}'
+        if k.startswith('deco'):
+            cy, cm = mk_code(al, rng)
+            dk, pre = {'deco-': ('minus', True), 'deco--': ('minus_minus', True), 'deco-post': ('plus_plus', False)}[k]
+            y = {'type': 'register', 'register': r, 'bytecode': cy, 'decorator': {'type': dk, 'is_prefix': pre}}
+            m = {'id': oid, 't': 'register', 'r': r, 'code': cm, 'decoPre': DECOS[dk] if pre else '', 'decoPost': '' if pre else DECOS[dk]}
+        else:
+            while True:
+                y, m = gen_alt(rng, al, k, regs if k != 'register' else [r], de, gz, oid, consts)
+                if not (k == 'relative_address' and m.get('curly')):
+                    break
+        sname = f's{vi}'
+        isa['operand_sets'][sname] = {'operand_values': {oid: y}}
+        opc = 0x10 + vi
+        vy = {'bytecode': {'value': opc, 'size': 8}, 'operands': {'count': 1, 'operand_sets': {'list': [sname]}}}
+        vm = {'opcode': {'v': opc, 'n': 8, 'little': de == 'little'}, 'count': 1, 'sets': {'sets': [[m]]}}
+        variants_y.append(vy)
+        variants_m.append(vm)
+    instr = dict(variants_y[0])
+    instr['variants'] = variants_y[1:]
+    isa['instructions']['tst'] = instr
+    rc = lambda x: gen.rcase(rng, x)  # noqa
+    stmts = []
+    for _ in range(rng.randint(1, 3)):
+        q = rc(r)
+        f, t = rng.choice([
+            ({'f': 'deco', 'pre': '-', 'r': q, 'post': ''}, '-' + q),
+            ({'f': 'deco', 'pre': '--', 'r': q, 'post': ''}, '--' + q),
+            ({'f': 'deco', 'pre': '', 'r': q, 'post': '++'}, q + '++'),
+            ({'f': 'plain', 'e': ('label', q)}, q),
+            ({'f': 'plain', 'e': ('label', q.upper())}, q.upper()),
+            ({'f': 'plain', 'e': ('byte', 0, ('label', q))}, f'LSB({q})'),
+            ({'f': 'plain', 'e': ('bin', '+', ('num', 5), ('neg', ('label', q)))}, f'5 + -{q}'),
+            ({'f': 'plain', 'e': ('num', 5)}, '5'),
+            ({'f': 'plain', 'e': ('neg', ('label', 'kfoo'))}, '-kfoo'),
+        ])
+        stmts.append(([f], gen.rcase(rng, 'tst') + ' ' + t))
+    asm = ''.join(f'{k} = {v}\n' for k, v in consts.items()) + ''.join(t + '\n' for _, t in stmts)
+    base = {'op': 'stmt', 'regs': regs, 'gs': gz[0], 'ge': gz[1], 'env': [[k, v] for k, v in consts.items()],
+            'variants': variants_m}
+    return {'isa': isa, 'asm': asm, 'base': base, 'stmts': [f for f, _ in stmts], 'nvar': len(plan), 'shadow': True}
+
+
 def generate(rng, tier):
-    return [gen_case(rng, tier) for _ in range(600 if tier == 'quick' else 15000)]
+    n = 600 if tier == 'quick' else 15000
+    return [gen_case(rng, tier) for _ in range(n)] + [gen_case_shadow(rng, tier) for _ in range(n // 6)]
 
 
 def to_impl(case):
@@ -397,7 +458,7 @@ def to_model(case):
 
 
 def judge(case, ir, mrs):
-    tags = ['nvar=%d' % case['nvar'], 'stmts=%d' % len(case['stmts'])]
+    tags = ['nvar=%d' % case['nvar'], 'stmts=%d' % len(case['stmts'])] + (['register-text-vs-earlier-numeric-variant'] if case.get('shadow') else [])
     det = f'asm={case["asm"]!r} model={[{k: m[k] for k in m if k != "sel"} for m in mrs]}'[:900]
     if ir['status'] == 'timeout':
         return {'verdict': Verdict.VIOLATION, 'detail': 'no termination; ' + det, 'tags': tags}
